@@ -280,6 +280,7 @@ func init() {
 			pr := BuildProto(w, ProtoOpt{Peers: 2 + w.T.Choose(2, "peers"), MinServers: 2,
 				ServerTypes: []model.FeatureTypeType{model.FeatureTypeTypeLoadControl, model.FeatureTypeTypeDeviceConfiguration, model.FeatureTypeTypeSetpoint}})
 			rs := &regScript{w: w, pr: pr, kind: "bind"}
+			w.EnableFaults("net.dup")
 			hot := pr.Servers[w.T.Choose(len(pr.Servers), "hot")]
 			var events []string
 			h := &evCollector{w: w, want: api.EventTypeBindingChange, out: &events}
